@@ -81,6 +81,47 @@ def v3000_random_sessions(rng, tier, n):
     return ss
 
 
+def v3000_history_sessions(rng, tier, n):
+    """read a text, edit the returned graph in place, read the same text again: the reader must answer from the text"""
+    ss = []
+    for i in range(n):
+        M = textgen.abstract_molecule(rng, 6)
+        lines, _ = textgen.render_v3000(M, rng)
+        S = Session(f"v3hist-{i}")
+        a = S.read(lines, "V3000", "C07", mol=textgen.mol_event(M), floats=textgen.floats_of(M))
+        if a:
+            g = S.objs[a]
+            x = rng.choice(list(g.nodes))
+            g.nodes[x]["chg"] = 7
+            g.nodes[x]["x_coord"] = 123.456
+            g.add_node(g.number_of_nodes(), element_symbol="Xe", atomic_number=54, partition=0)
+            S.read(lines, "V3000", "C07", mol=textgen.mol_event(M), floats=textgen.floats_of(M))
+        ss.append(S)
+    return ss
+
+
+def v3000_hub_sessions(rng, tier):
+    """multi-attachment bonds with ten and more endpoints"""
+    ss = []
+    for k in (9, 10, 11, 12, 15):
+        M = {"atoms": [dict(sym="Fe", chg=0, rad=0, mass=0, x="0", y="0", z="0")] + [dict(sym="C", chg=0, rad=0, mass=0, x=str(i), y="1.5", z="0") for i in range(k)],
+             "bonds": [(0, i, 9) for i in range(1, k + 1)] + [(i, i + 1, 4) for i in range(1, k)]}
+        for rep in range(3):
+            # force one star group that takes all bonds of the hub
+            lines = None
+            for attempt in range(40):
+                l, info = textgen.render_v3000(M, rng, opts={"star": True, "cont": rng.choice([0, 1])})
+                if any("ENDPTS=(" + str(k) + " " in x.replace("-\nM  V30 ", "") for x in ["\n".join(l)]):
+                    lines = l
+                    break
+            if lines is None:
+                continue
+            S = Session(f"v3hub-{k}-{rep}")
+            S.read(lines, "V3000", "C07", mol=textgen.mol_event(M), floats=textgen.floats_of(M))
+            ss.append(S)
+    return ss
+
+
 def permuted(M, perm):
     n = len(M["atoms"])
     atoms = [None] * n
@@ -99,6 +140,8 @@ def c07(out, tier, rng):
     out.extra["spec_to_code_inputs"] = len(items)
     ss = spec_text_sessions(items, "C07", rng, 700 if tier == "quick" else None)
     ss += v3000_random_sessions(rng, tier, 250 if tier == "quick" else 4000)
+    ss += v3000_history_sessions(rng, tier, 15 if tier == "quick" else 150)
+    ss += v3000_hub_sessions(rng, tier)
     ss += corpus_text_sessions("C07", tier, rng, 120 if tier == "quick" else 400)
     for s in ss:
         out.count(("c07", json.dumps(s.ev[0].get("lines", []))[:2000]), nontrivial=True)
@@ -207,7 +250,7 @@ def nonidentity_variant(M, rng):
     for a in N["atoms"]:
         a["x"], a["y"], a["z"] = (rng.choice(textgen.COORDS) for _ in range(3))
         a["chg"] = rng.choice([0, 0, 1, -1, 2])
-    N["bonds"] = [(p, q, rng.choice([1, 2, 3, 4])) for p, q, t in N["bonds"]]
+    N["bonds"] = [(p, q, rng.choice([1, 2, 3, 4, 5, 8, 9, 10])) for p, q, t in N["bonds"]]
     return N
 
 
@@ -333,6 +376,21 @@ def c09(out, tier, rng):
                         for t in tri:
                             fl[t] = repr(float(t))
             rb = S.read(lines, "V3000", "C09", floats=fl)
+        ss.append(S)
+    # labels need not be 0..n-1: wide (bond lines wrap too) and sparse (a fragment cut out of a larger graph) atom numbers
+    import networkx as nx
+    for i in range(12 if tier == "quick" else 120):
+        g = gen.random_molecule(rng, 6, label_p=0.3, density=0.6)
+        n = g.number_of_nodes()
+        kind = rng.choice(["wide", "sparse", "huge"])
+        lab = {a: (10 ** rng.choice([20, 33, 38]) + a * 7 if kind == "wide" else (3 * a + rng.randint(0, 2) if kind == "sparse" else 2 ** 127 + a)) for a in g.nodes}
+        big = nx.relabel_nodes(g, lab, copy=True)
+        S = Session(f"c09-labels-{kind}-{i}")
+        o = S.input(g)
+        lines = S.write(o, live=big, relabel=lab)
+        if lines:
+            fl = {x: repr(float(x)) for e in S.ev if e["op"] == "write" for tri in e["xyz6"] for x in tri}
+            S.read(lines, "V3000", "C09", floats=fl)
         ss.append(S)
     # string -> graph -> molfile -> graph -> string, also for graphs whose atoms are not listed in label order
     pool = drivers.molecule_pool(rng, tier, n_random=40 if tier == "quick" else 400, corpus_n=10 if tier == "quick" else 150) + drivers.special_molecules()
